@@ -257,3 +257,61 @@ Definition map_visits (mt nt ncores P Q me : nat) (sched : list nat) : list (nat
   let s := mrun mt nt ncores (bc_local P Q me) sched in
   let s' := mcomplete mt nt ncores (bc_local P Q me) (4 * (mt * nt + nt + ncores) + 8) s in
   (rev (m_log s'), mfinal s').
+
+(* map_operator.c sets nb_tasks = src->nb_local_tiles (tiles of the STORED grid owned by this
+   process) and nb_pending_actions = 1 in its constructor; the local termination detector
+   releases that pending action only when nb_tasks goes from positive to zero
+   (mca/termdet/local: taskpool_addto_nb_tasks).  The taskpool therefore completes on a process
+   iff it owns at least one stored tile and executes exactly that many tasks.
+   fixed = true: the repair of notes/findings/C22-map-operator-termination.patch (nb_tasks = number
+   of local tiles of the iteration space, no pending action when there is none). *)
+Definition map_completes (fixed : bool) (nb_local_tiles visited : nat) : bool :=
+  if fixed then true else negb (nb_local_tiles =? 0) && (visited =? nb_local_tiles).
+
+(* ------------------------------------------------ functions printed by the driver *)
+Local Close Scope nat_scope.
+Local Open Scope Z_scope.
+
+(* apply: one entry [m; n; u; r] per operator call, r = owner of the tile the instance is placed on *)
+Definition place_owner (P Q : Z) (r : ref) : Z :=
+  match r with RData _ [m; n] => owner P Q m n | _ => -1 end.
+Definition class_run (P Q : Z) (c : gclass) : list (list Z) :=
+  flat_map (fun ps => match g_opcall c ps with
+                      | Some [u; m; n] => [[m; n; u; place_owner P Q (g_place c ps)]]
+                      | Some a => [a]
+                      | None => [] end) (g_space c).
+Definition apply_run (uplo mt nt P Q : Z) : list (list Z) :=
+  flat_map (class_run P Q) (apply_classes (apply_New_G uplo (md_of mt nt))).
+
+(* reduce with the logging body: six slots [sum; max; sum of squares; count; lowest index; highest index] *)
+Definition slot_op (a b : list Z) : list Z :=
+  match a, b with
+  | [a0; a1; a2; a3; a4; a5], [b0; b1; b2; b3; b4; b5] =>
+      [a0 + b0; Z.max a1 b1; a2 + b2; a3 + b3; Z.min a4 b4; Z.max a5 b5]
+  | _, _ => []
+  end.
+Definition slot_tile (vals : list Z) (i : Z) : list Z :=
+  let v := nth (Z.to_nat i) vals 0 in [v; v; v * v; 1; i; i].
+Definition reduce_run (mt : Z) (vals : list Z) : list (list Z * option (list Z)) :=
+  let G := reduce_G_of mt in
+  map (fun ps => match ps with
+                 | [l; p] => (ps, rval slot_op (slot_tile vals) G (S (Z.to_nat l)) l p)
+                 | _ => (ps, None) end) (reduce_reduce_space G).
+Definition reduce_root_run (mt : Z) (vals : list Z) : option (list Z) :=
+  reduce_root_value slot_op (slot_tile vals) mt.
+Definition reduce_space_of (mt : Z) : list (list Z) := reduce_reduce_space (reduce_G_of mt).
+Definition reduce_depth_of (mt : Z) : Z := reduce_depth (reduce_G_of mt).
+
+(* reduce_col / reduce_row through their wrappers: number of operator calls; is there anything
+   outside the matrix / waiting for a task that does not exist / a collection reference with
+   the wrong number of indices *)
+Definition bad_arity (c : gclass) : bool :=
+  existsb (fun ps => existsb (fun f => existsb (fun r => match r with RData _ [_; _] => false | RData _ _ => true | _ => false end)
+                                               (active_outs (g_out c f ps))) (g_flows c)) (g_space c).
+Definition skeleton_run (col : bool) (mt nt : Z) : Z * bool :=
+  let src := md_of mt nt in
+  let cs := if col then rcol_classes (rcol_New_G src (md_of 1 nt)) else rrow_classes (rrow_New_G src (md_of mt 1)) in
+  (Z.of_nat (List.length (all_calls cs)),
+   existsb (fun c => negb (Nat.eqb (List.length (out_of_matrix src c)) 0)) cs
+   || negb (Nat.eqb (List.length (dangling_inputs cs)) 0)
+   || existsb bad_arity cs).
